@@ -1396,24 +1396,52 @@ func c19NameLabels(c *Ctx, p *Prog) {
 	ns := 0
 	for _, fn := range p.Funcs("storage/benchfmt") {
 		eachInstr(fn, func(_ *ssa.BasicBlock, in ssa.Instruction) {
-			call, ok := in.(*ssa.Call)
-			if !ok || !objIs(calleeObj(&call.Call), "fmt", "", "Sprintf") {
-				return
-			}
-			if f, ok := constString(call.Call.Args[0]); !ok || !strings.Contains(f, "sub%d") {
-				return
-			}
-			ns++
 			var operand ssa.Value
-			if sl, ok := call.Call.Args[1].(*ssa.Slice); ok {
-				if al, ok := sl.X.(*ssa.Alloc); ok {
-					for _, st := range storesInto(al) {
-						if mi, ok := st.Val.(*ssa.MakeInterface); ok {
-							operand = mi.X
+			var call ssa.Instruction
+			switch x := in.(type) {
+			case *ssa.Call:
+				// fmt.Sprintf("sub%d", n)
+				if !objIs(calleeObj(&x.Call), "fmt", "", "Sprintf") {
+					return
+				}
+				if f, ok := constString(x.Call.Args[0]); !ok || !strings.Contains(f, "sub%d") {
+					return
+				}
+				if sl, ok := x.Call.Args[1].(*ssa.Slice); ok {
+					if al, ok := sl.X.(*ssa.Alloc); ok {
+						for _, st := range storesInto(al) {
+							if mi, ok := st.Val.(*ssa.MakeInterface); ok {
+								operand = mi.X
+							}
 						}
 					}
 				}
+				call = x
+			case *ssa.BinOp:
+				// "sub" + strconv.Itoa(n)
+				if x.Op != token.ADD {
+					return
+				}
+				if k, ok := constString(x.X); !ok || k != "sub" {
+					return
+				}
+				cv, ok := x.Y.(*ssa.Call)
+				if !ok {
+					return
+				}
+				co := calleeObj(&cv.Call)
+				if co == nil || co.Pkg() == nil || co.Pkg().Path() != "strconv" || len(cv.Call.Args) == 0 {
+					return
+				}
+				operand = cv.Call.Args[0]
+				if cvt, ok := operand.(*ssa.Convert); ok {
+					operand = cvt.X
+				}
+				call = x
+			default:
+				return
 			}
+			ns++
 			// strip constant offsets, then expect a loop-header phi all of whose in-loop edges are phi+constant computed
 			// once per iteration (in the header itself or in a block every iteration passes: a latch)
 			v := operand
